@@ -26,15 +26,18 @@ class Exec:
 
 
 class Runner:
-    def __init__(self, spec, builder='api', event='e', extra_context=None, interp_kwargs=None):
+    def __init__(self, spec, builder='api', event='e', extra_context=None, interp_kwargs=None,
+                 prebuilt=None):
         self.spec = spec
         self.model = Model(spec)
         self.T = self.model.T
-        if builder == 'api':
+        if prebuilt is not None:
+            self.sc, self.objs = prebuilt
+        elif builder == 'api':
             self.sc, self.objs = build_api(spec)
         else:
             self.sc, self.objs = build_yaml(spec)
-        self.tid_of = {id(o): spec['transitions'][i].get('tid', i) for i, o in enumerate(self.objs)}
+        self.tid_of = {id(o): spec['transitions'][i].get('tid', i) for i, o in enumerate(self.objs or [])}
         self.event = event
         self.extra_context = extra_context or {}
         self.interp_kwargs = interp_kwargs or {}
@@ -48,8 +51,14 @@ class Runner:
 
     def tid(self, transition):
         t = self.tid_of.get(id(transition))
-        if t is None:   # e.g. after a copy: fall back to the guard text
-            t = int(transition.guard.split('(')[1].split(',')[0])
+        if t is None:   # e.g. after a copy: fall back to the guard / action text
+            try:
+                t = int(transition.guard.split('(')[1].split(',')[0])
+            except Exception:
+                try:
+                    t = int(transition.action.split("'ac',")[1].split(')')[0])
+                except Exception:
+                    t = -1
         return t
 
     def apply(self, it, op, drain=True):
